@@ -2,7 +2,8 @@
     Only statements here; proofs are in SM/PathNormProofs.v.  [raise_if] is the condition under which
     RawFileSystem._resolve_path raises RootEscapeError, regenerated from filesys.py into Gen/Containment_gen.v. *)
 From Coq Require Import List NArith Bool.
-From SV Require Import SM.PathNorm SM.PathNormProofs SM.PathOps SM.PathOpsProofs SM.PathWalkRel Gen.Containment_gen Gen.FsOps_gen.
+From SV Require Import SM.PathNorm SM.PathNormProofs SM.PathOps SM.PathOpsProofs SM.PathWalkRel SM.PathMemo SM.PathMemoProofs
+  SM.PathHistory SM.PathHistoryProofs Gen.Containment_gen Gen.FsOps_gen.
 Import ListNotations.
 
 (** Census obligation: every file-system access of RawFileSystem goes through _resolve_path. *)
@@ -202,3 +203,111 @@ Theorem c18_walk_yield_names_the_file_found :
       unbackslash y = y ->
       segs (abspath cwd (pjoin root (unbackslash y))) = segs file.
 Proof. exact walk_yield_names_the_file_found. Qed.
+
+(** ------------------------------------------------------------------ histories over several objects; memo tables (round 3).
+    Census obligations: nothing stands between a caller and the method bodies the translators read (no decorator
+    other than classmethod/deprecated/..., no rebinding of a method, no attribute hook, no subclass override). *)
+Definition resolve_path_is_not_wrapped : bool := match resolve_path_wrappers with [] => true | _ => false end.
+Definition no_method_of_the_file_system_classes_is_wrapped : bool := match method_wrappers with [] => true | _ => false end.
+(** ... and no table outlives a call where a second file-system object can see it (module / class level containers,
+    mutable parameter defaults, state on method objects): the hand-written form of the same cache. *)
+Definition file_system_methods_share_no_mutable_state : bool := match shared_mutable_state with [] => true | _ => false end.
+
+(** Histories.  Calls of _resolve_path on any number of RawFileSystem objects (constrained or not, same or different
+    roots) in any order, with a memo table in front of the method whose key contains the constrain flag, under EVERY
+    replacement policy that only drops entries ([fun _ => []] is today's source: no table): whatever a constrained
+    object is answered at any point of the history is inside its root. *)
+Theorem c18_history_constrained_calls_inside :
+  raise_sound raise_if = true ->
+  forall cwd evict, is_abs cwd = true -> only_drops evict ->
+  forall calls n call a,
+    nth_error calls n = Some call -> rc_con call = true ->
+    nth_error (memo_run true raise_if cwd evict [] calls) n = Some (Ok a) ->
+    inside (abspath cwd (rc_root call)) a.
+Proof. intros Hg cwd evict Hc He. exact (memo_history_inside raise_if cwd evict Hg Hc He). Qed.
+
+(** The table is transparent: for every guard, policy and history in which every call is covered by the key (key with
+    the flag, or constrained callers only) the answers are those of the unmemoised method. *)
+Theorem c18_memo_table_transparent :
+  forall with_flag g cwd evict, only_drops evict ->
+  forall calls, forallb (key_covers with_flag) calls = true ->
+    memo_run with_flag g cwd evict [] calls = map (plain g cwd) calls.
+Proof.
+  intros wf g cwd evict He calls H. exact (memo_transparent wf g cwd evict He calls [] (cache_valid_nil g cwd) H).
+Qed.
+
+(** A table shared by constrained objects only is harmless even when its key ignores the flag. *)
+Theorem c18_memo_constrained_callers_only_inside :
+  forall g cwd evict, raise_sound g = true -> is_abs cwd = true -> only_drops evict ->
+  forall calls n call a,
+    forallb rc_con calls = true -> nth_error calls n = Some call ->
+    nth_error (memo_run false g cwd evict [] calls) n = Some (Ok a) ->
+    inside (abspath cwd (rc_root call)) a.
+Proof. exact memo_constrained_only_inside. Qed.
+
+(** Replacement policies exist: no table, unbounded table, the n newest entries (lru_cache(maxsize=n) drops others). *)
+Theorem c18_replacement_policies_exist :
+  only_drops (fun _ => []) /\ only_drops (fun c => c) /\ forall n, only_drops (firstn n).
+Proof. exact (conj drop_all_only_drops (conj keep_all_only_drops firstn_only_drops)). Qed.
+
+(** Seeded c18_4 (functools.lru_cache on _resolve_path; FileSystem.__eq__/__hash__ ignore constrain_path) refuted: after an
+    unconstrained RawFileSystem('/t/root') resolved '../secret.txt', a constrained one on the same folder is answered
+    '/t/secret.txt' from the table; with the flag in the key, and without a table, it raises; alone it keeps refusing. *)
+From Coq Require Import String.
+Open Scope string_scope.
+Theorem c18_memo_key_without_flag_refuted :
+  raise_sound guard_rstrip_sep = true /\
+  memo_run false guard_rstrip_sep (s2l "/w") (fun c => c) [] fault_history
+    = [Ok (s2l "/t/secret.txt"); Ok (s2l "/t/secret.txt")] /\
+  seg_prefixb (segs (abspath (s2l "/w") (s2l "/t/root"))) (segs (s2l "/t/secret.txt")) = false /\
+  memo_run true guard_rstrip_sep (s2l "/w") (fun c => c) [] fault_history = [Ok (s2l "/t/secret.txt"); Escape] /\
+  map (plain guard_rstrip_sep (s2l "/w")) fault_history = [Ok (s2l "/t/secret.txt"); Escape] /\
+  memo_run false guard_rstrip_sep (s2l "/w") (fun c => c) [] (tl fault_history ++ tl fault_history)%list = [Escape; Escape].
+Proof. exact memo_key_without_flag_refuted. Qed.
+
+(** ------------------------------------------------------------------ whole histories of operations (round 3).
+    A history is any list of steps; a step is one access site of the table generated from filesys.py, executed by
+    one of any number of RawFileSystem objects (any roots, constrained or not) on arbitrary strings (argument, File
+    handle strings — e.g. a handle an earlier step of another object produced).  A memo table under any replacement
+    policy may stand in front of _resolve_path ([fun _ => []]: today's source, no table) and is threaded through the
+    evaluation.  If its key covers every step (it contains the flag, or all objects are constrained), then every path a
+    constrained object hands to the OS, at any point of any history, is inside that object's root. *)
+Theorem c18_history_every_access_inside :
+  raise_sound raise_if = true -> sites_ok raw_sites = true ->
+  forall with_flag cwd evict, is_abs cwd = true -> only_drops evict ->
+  forall ops n op a,
+    forallb (op_covered with_flag) ops = true ->
+    nth_error ops n = Some op -> oc_con op = true -> In (oc_site op) raw_sites ->
+    nth_error (hist_run with_flag raise_if cwd evict [] ops) n = Some (Some a) ->
+    inside (abspath cwd (oc_root op)) a.
+Proof.
+  intros Hg Hs wf cwd evict Hc He ops n op a Hall Hn Hcon Hin.
+  apply (hist_accesses_inside wf raise_if cwd evict Hg Hc He ops n op a Hall Hn Hcon).
+  unfold sites_ok in Hs. rewrite forallb_forall in Hs. exact (Hs _ Hin).
+Qed.
+
+(** Steps made through a FileSystemChain (any prefix; [chain_calls] generated from filesys.py) are steps of such histories:
+    a chain step is the member's site run on the string the chain computed, i.e. [chain_access] of the round-2 model. *)
+Theorem c18_history_chain_steps_are_steps :
+  forall g cwd root_arg c s i op,
+    chain_step g cwd root_arg true c s i = Some op ->
+    op_plain g cwd op = chain_access g cwd root_arg i c s /\ oc_root op = root_arg /\ oc_con op = true /\ oc_site op = s.
+Proof. exact chain_step_is_chain_access. Qed.
+
+(** The history is the step-by-step evaluation of the operations model: the table is invisible (any guard). *)
+Theorem c18_history_is_stepwise_model :
+  forall with_flag g cwd evict, only_drops evict ->
+  forall ops, forallb (op_covered with_flag) ops = true ->
+    hist_run with_flag g cwd evict [] ops = map (op_plain g cwd) ops.
+Proof. intros wf g cwd evict He ops H. exact (hist_run_transparent wf g cwd evict He ops [] (cache_valid_nil g cwd) H). Qed.
+
+(** Refuted without the flag in the key, on the level of operations: an unconstrained RawFileSystem('/t/root') opens
+    '..\secret.txt', then a constrained one on the same folder opens '../secret.txt' and receives /t/secret.txt. *)
+Theorem c18_history_key_without_flag_refuted :
+  raise_sound guard_rstrip_sep = true /\ site_ok open_site = true /\
+  hist_run false guard_rstrip_sep (s2l "/w") (fun c => c) [] fault_ops
+    = [Some (s2l "/t/secret.txt"); Some (s2l "/t/secret.txt")] /\
+  seg_prefixb (segs (abspath (s2l "/w") (s2l "/t/root"))) (segs (s2l "/t/secret.txt")) = false /\
+  hist_run true guard_rstrip_sep (s2l "/w") (fun c => c) [] fault_ops = [Some (s2l "/t/secret.txt"); None] /\
+  map (op_plain guard_rstrip_sep (s2l "/w")) fault_ops = [Some (s2l "/t/secret.txt"); None].
+Proof. exact hist_key_without_flag_refuted. Qed.
